@@ -22,10 +22,11 @@ def _root(e):
 
 
 @rule('SA-MIRROR.total')
-@props('C01', 'C03')
+@props('C01', 'C03', 'C09')
 def mirror_total(ctx):
     obs = []
     loops = []
+    deviants = []
     for fi in ctx.m.pkg_functions():
         for loop in ctx.own_nodes(fi):
             if not (isinstance(loop, ast.For) and isinstance(loop.target, ast.Name)):
@@ -40,6 +41,26 @@ def mirror_total(ctx):
                         mirrored.append(n)
             if mirrored:
                 loops.append((fi, loop, mirrored))
+            else:
+                # the same shape with the member itself as the source: `<reached from c>.f = c.f` copies a field of the
+                # member into something below the member - a candidate deviant of a mirroring sibling (judged below)
+                for st in loop.body:
+                    for n in ast.walk(st):
+                        if isinstance(n, ast.Assign) and len(n.targets) == 1 and isinstance(n.targets[0], ast.Attribute) and \
+                                isinstance(n.value, ast.Attribute) and isinstance(n.value.value, ast.Name) and n.value.value.id == v and \
+                                n.targets[0].attr == n.value.attr and _root(n.targets[0]) == v and not isinstance(n.targets[0].value, ast.Name):
+                            deviants.append((fi, loop, n))
+    # a loop of the same class that writes the same field of the same place from the member itself, where a sibling
+    # mirrors it from self: the two disagree about whose value the field holds
+    for dfi, dloop, dn in deviants:
+        for fi, loop, mirrored in loops:
+            if (fi.cls is dfi.cls) and any(norm(m.targets[0]) .replace(loop.target.id, '?') == norm(dn.targets[0]).replace(dloop.target.id, '?') for m in mirrored):
+                obs.append(Ob('SA-MIRROR.total', '%s|%s mirrors self.%s like its sibling' % (dfi.qual, norm(dn.targets[0]), dn.value.attr), False, ctx.loc(dfi, dn),
+                              '`%s = %s` copies the member\'s own %s into it, while %s writes the same place from self.%s: the field is the copy of the *containing* '
+                              'directory\'s value (the `..` record repeats the length of the directory it points back to), so after this path it states the length of the '
+                              'subdirectory instead' % (norm(dn.targets[0]), norm(dn.value), dn.value.attr, fi.qual, dn.value.attr)))
+                loops.append((dfi, dloop, [dn]))
+                break
     if len(loops) < 2:
         raise AnalysisError('anchor-vanished: loops that copy a field of self into every child (%d)' % len(loops))
     by_field = {}
@@ -120,4 +141,65 @@ def loopvar(ctx):
     if nloops < 100:
         raise AnalysisError('anchor-vanished: for loops in the package (%d)' % nloops)
     obs.append(Ob('SA-MIRROR.loopvar', 'loops whose target is dead after the loop (or that break out of a search)', True, 'pycdlib/', '%d loops' % nloops))
+    return obs
+
+
+@rule('SA-MIRROR.invariant_break')
+@props('C11', 'C12', 'C01')
+def invariant_break(ctx):
+    """A `for` loop is not left (`break`) on a condition that cannot change while it runs.  A test that mentions no
+    name assigned in the loop, no call and no attribute stored in the loop has the same value in every iteration: if it
+    is false the `break` is dead, if it is true the loop handles the statements above the test for the first member only
+    and nothing for the others.  What is meant is either a test in front of the loop or `continue` (skip the rest of the
+    body for every member): with `break`, every boot image after the first keeps the extent of the previous layout
+    whenever there is no hybrid MBR."""
+    from .. import cfg as cfgmod
+    obs = []
+    nloops = 0
+    for fi in ctx.m.pkg_functions():
+        for loop in ctx.own_nodes(fi):
+            if not isinstance(loop, ast.For):
+                continue
+            nloops += 1
+            assigned = set(cfgmod.target_names(loop.target))
+            stored_attrs = set()
+            for x in ast.walk(loop):
+                if isinstance(x, (ast.Assign, ast.AugAssign, ast.AnnAssign)):
+                    for t in (x.targets if isinstance(x, ast.Assign) else [x.target]):
+                        assigned |= set(cfgmod.target_names(t))
+                        for y in ast.walk(t):
+                            if isinstance(y, ast.Attribute):
+                                stored_attrs.add(y.attr)
+                if isinstance(x, (ast.For, ast.comprehension)) and x is not loop:
+                    assigned |= set(cfgmod.target_names(x.target))
+                if isinstance(x, ast.With):
+                    for it in x.items:
+                        if it.optional_vars is not None:
+                            assigned |= set(cfgmod.target_names(it.optional_vars))
+            inner = [x for st in loop.body for x in ast.walk(st) if isinstance(x, (ast.For, ast.While))]
+            for i, st in enumerate(loop.body):
+                if i == 0:
+                    continue        # a test in front of all work is a test in front of the loop
+                for iff in ast.walk(st):
+                    if not (isinstance(iff, ast.If) and iff.body and isinstance(iff.body[-1], ast.Break)):
+                        continue
+                    if any(iff is y or any(iff is z for z in ast.walk(y)) for y in inner):
+                        continue
+                    t = iff.test
+                    if any(isinstance(y, (ast.Call, ast.Await, ast.NamedExpr)) for y in ast.walk(t)):
+                        continue
+                    if any(isinstance(y, ast.Name) and y.id in assigned for y in ast.walk(t)):
+                        continue
+                    if any(isinstance(y, ast.Attribute) and y.attr in stored_attrs for y in ast.walk(t)):
+                        continue
+                    if iff is not st:
+                        continue    # nested under another condition that may vary
+                    obs.append(Ob('SA-MIRROR.invariant_break', '%s|for %s in %s|break when %s' % (fi.qual, norm(loop.target), norm(loop.iter)[:40], norm(t)[:60]), False,
+                                  ctx.loc(fi, iff),
+                                  'the loop over `%s` is left when `%s`, a condition that cannot change during the loop: the %d statement(s) above it run for the first member '
+                                  'only and the other members are never handled (a test in front of the loop, or `continue`, was meant)'
+                                  % (norm(loop.iter)[:60], norm(t)[:80], i)))
+    if nloops < 100:
+        raise AnalysisError('anchor-vanished: for loops in the package (%d)' % nloops)
+    obs.append(Ob('SA-MIRROR.invariant_break', 'for loops without a break on a loop-invariant condition after work', True, 'pycdlib/', '%d loops' % nloops))
     return obs
